@@ -90,6 +90,10 @@ CLAIMS = {
         "text": "Decides: only handle_message (from run0) mutates the redb tables; row/index pairing on every path of Upsert and CheckExpired incl. that eviction compares the *stored* packet's timestamp with the cut-off; every non-error exit of the batch loop commits after dropping the tables; serialize/deserialize agree on the prefix. Crash durability (redb) and cut-off arithmetic are not decided.",
         "technique": "who-writes over redb mutators, must-pass-through (no Ok exit bypassing a paired operation) on match-arm regions, derives-from of comparison operands",
     },
+    "C17": {
+        "text": "Decides progress and wake-up discipline of the relay receive path: the segment count given to take_segments is proven >= 1, the stored pending item is cleared exactly when empty (or undeliverable), poll_recv_queue serves the stored item first and returns Pending only from the channel, and every way out of the receive loop that can end in Poll::Pending follows the channel's Pending or re-arms the waker. Exactly-once/in-order delivery of bytes is not decided.",
+        "technique": "partial-arithmetic rule (zero quotient as progress count), success-edge dominance, loop-exit coverage on the CFG",
+    },
 }
 
 _PENDING = "rules for this property are not implemented yet in this revision (see DESIGN.md §4 for the planned structural clauses)"
